@@ -508,6 +508,37 @@ def gen_case(rng, res, C, sets, viol, nontrivial):
             builds.append(genir.build(s2, outside=x.outside))
         keep.extend(builds)
         pair(builds[0].root, builds[1].root, "float-bits:" + fam.split(":")[0], None, "float_bits:" + fam, f"{field} {ka} vs {kb}")
+    # unregistered attributes / types with the SAME name and different bodies (#foo.bar<1> vs #foo.bar<2>, !foo.vec<4> vs
+    # !foo.vec<8>, opaque spelling, nested in array / dictionary / tensor / function types) as attribute, property,
+    # result type (hence operand type of its users) or block-argument type of one node
+    spec_blocks = [b for b in genir.walk_blocks(spec) if b["args"]]
+    for _ in range(3):
+        place = rng.choice(("attrs", "props", "res", "res", "args"))
+        if place in ("attrs", "props"):
+            fam, ka, kb = rng.choice(genir.UNREG_ATTR_FAMILIES)
+        else:
+            fam, ka, kb = rng.choice(genir.UNREG_TYPE_FAMILIES)
+        cands = spec_ops if place in ("attrs", "props") else [o for o in spec_ops if o["res"]] if place == "res" else spec_blocks
+        if not cands:
+            continue
+        nid = rng.choice(cands)["id"]
+        slot = rng.randrange(8)
+        builds = []
+        for key in (ka, kb):
+            s2 = _copy.deepcopy(spec)
+            if place == "args":
+                n2 = next(b for b in genir.walk_blocks(s2) if b["id"] == nid)
+                n2["args"][slot % len(n2["args"])] = key
+            else:
+                n2 = next(o for o in genir.walk_ops(s2) if o["id"] == nid)
+                if place == "res":
+                    n2["res"][slot % len(n2["res"])] = key
+                else:
+                    name = "ubody" if place == "attrs" else ("prop2" if n2["name"].startswith("test.") else "p0")
+                    n2[place] = [e for e in n2[place] if e[0] != name] + [[name, key]]
+            builds.append(genir.build(s2, outside=x.outside))
+        keep.extend(builds)
+        pair(builds[0].root, builds[1].root, "unreg-body:" + place, None, f"unreg_body:{place}:{fam}", f"{place} {ka} vs {kb}")
     # IR-level edits of a clone / re-build
     for _ in range(3):
         z = genir.build(spec, outside=x.outside)
@@ -633,7 +664,7 @@ def oi_case(rng, res, C, sets, viol, nontrivial):
         a.parent.insert_op_after(b, a)
         how = "twin"
         ek = rng.choice(("none", "none", "retype_nested", "retype_result", "attr", "operand", "add_region", "nested_attr",
-                         "nested_operand", "prop", "float_bits", "float_bits"))
+                         "nested_operand", "prop", "float_bits", "float_bits", "unreg_body", "unreg_body"))
         bo, bb, br, bv = genir.collect(b)
         if ek == "retype_nested":
             nested = [v for v in bv if v not in b.results]
@@ -651,6 +682,20 @@ def oi_case(rng, res, C, sets, viol, nontrivial):
             tgt_a.attributes["fbits"] = genir.ATTRS[ka]
             tgt_b.attributes["fbits"] = genir.ATTRS[kb]
             how = "twin+float-bits:" + fam.split(":")[0]
+        elif ek == "unreg_body":
+            if rng.random() < 0.5 or not a.results:
+                fam, ka, kb = rng.choice(genir.UNREG_ATTR_FAMILIES)
+                tgt_a, tgt_b = (a, b) if rng.random() < 0.6 or len(bo) < 2 else (genir.collect(a)[0][-1], bo[-1])
+                tgt_a.attributes["ubody"] = genir.ATTRS[ka]
+                tgt_b.attributes["ubody"] = genir.ATTRS[kb]
+                how = "twin+unreg-attr-body"
+            else:
+                fam, ka, kb = rng.choice(genir.UNREG_TYPE_FAMILIES)
+                i = rng.randrange(len(a.results))
+                if a.results[i].first_use is None or True:
+                    Rewriter.replace_value_with_new_type(a.results[i], genir.TYPES[ka])
+                    Rewriter.replace_value_with_new_type(b.results[i], genir.TYPES[kb])
+                how = "twin+unreg-type-body"
         elif ek == "attr":
             b.attributes["edit.k"] = StringAttr("e")
             how = "twin+attr"
@@ -1072,6 +1117,10 @@ def finish(agg, tier):
     for mk in genir.MUTATION_KINDS:
         if c.get(f"mut:{mk}:different", 0) < 15:
             inc.append(f"mutation kind {mk}: only {c.get(f'mut:{mk}:different', 0)} non-isomorphic pairs")
+    for place in ("attrs", "props", "res", "args"):
+        n = sum(v for k, v in c.items() if k.startswith(f"mut:unreg_body:{place}:") and k.endswith(":different"))
+        if n < 40:
+            inc.append(f"only {n} pairs differing in the body of an unregistered attribute/type ({place})")
     fb = sum(v for k, v in c.items() if k.startswith("mut:float_bits:") and k.endswith(":different"))
     if fb < 300:
         inc.append(f"only {fb} pairs differing in float corner-case bits")
